@@ -346,6 +346,13 @@ def directed() -> List[Dict[str, Any]]:
     D.append({**c_c, "body": [{"s": "loop", "n": 2, "body": [{"s": "g2", "g": "cnot", "a": 1, "b": 2}, {"s": "g1", "g": "h", "q": 0}]}], "ret": False})
     # two carbon-carbon gates (the scratch register), with the electron in a non-trivial state
     D.append({**c_c, "body": [{"s": "g1", "g": "h", "q": 0}, {"s": "g2", "g": "cnot", "a": 1, "b": 2}, {"s": "g2", "g": "cphase", "a": 2, "b": 1}, {"s": "g1", "g": "h", "q": 0}], "ret": True})
+    # two gates of the same placement next to one another, the first inside a conditional (so that the second is a branch target)
+    for style in ("sdk", "perqubit"):
+        for v in (0, 1):
+            for g, (a1, b1), (a2, b2) in (("cnot", (1, 0), (2, 0)), ("cnot", (0, 1), (0, 2)), ("cphase", (1, 0), (2, 0)), ("cnot", (1, 2), (2, 1))):
+                D.append({**c_c, "regstyle": style, "body": [{"s": "g1", "g": "h", "q": 1}, {"s": "g1", "g": "h", "q": 2},
+                                                           {"s": "if", "on": "arr", "slot": 0, "cmp": "eq", "v": v, "body": [{"s": "g2", "g": g, "a": a1, "b": b1}]},
+                                                           {"s": "g2", "g": g, "a": a2, "b": b2}], "ret": True})
     # many carbon-carbon gates in one subroutine (each borrows a scratch register), single-qubit gates in between
     for style in ("sdk", "perqubit"):
         many = []
